@@ -1,4 +1,5 @@
 import OpusProofs.CtlSurround
+import OpusProofs.CtlRanges
 import OpusProofs.EncDecideHonour
 import OpusModel.Gen.CtlConsts
 /-
@@ -271,11 +272,39 @@ theorem reject_unchanged_projection (s : ProjEncSt) (hi : MsInv s.ms) (r : ProjE
     the nine Opus durations); a fixed OPUS_FRAMESIZE_x_MS selects exactly that duration. -/
 theorem frame_size_select_spec (frameSize vd fs r : Int) (hfs : fs ∈ rates)
     (h : frameSizeSelect frameSize vd fs = r) (hr : r ≠ -1) :
-    r ∈ apiSizes fs ∧ r ≤ frameSize ∧ (vd = 5000 → r = frameSize) ∧
+    r ∈ apiSizes fs ∧ r ≤ frameSize ∧ r ≤ 6 * fs / 50 ∧ (vd = 5000 → r = frameSize) ∧
     (5001 ≤ vd ∧ vd ≤ 5009 → 400 * r = fs * durNum vd) := by
   obtain ⟨h1, h2⟩ := frameSizeSelect_legal frameSize vd fs r h hr
-  exact ⟨apiSizes_of_eq hfs h1, h2, fun hv => frameSizeSelect_arg frameSize fs r (by subst hv; exact h) hr,
+  exact ⟨apiSizes_of_eq hfs h1, h2, frameSizeSelect_le frameSize vd fs r h hr,
+         fun hv => frameSizeSelect_arg frameSize fs r (by subst hv; exact h) hr,
          fun hv => (frameSizeSelect_fixed frameSize vd fs r hfs hv h hr).1⟩
+
+/-- **int_ranges**: on the legal domain the C `int` arithmetic of the ctl layer and of the budget
+    computation never overflows, so the unbounded-`Int` model computes what the C code computes:
+    the bit-rate clamps; `user_bitrate_to_bitrate` (OPUS_GET_BITRATE, AUTO/MAX resolution) for
+    `frame_size` 0 or any Opus frame size; every intermediate of :1249-1334 (CBR byte budget,
+    `max_rate`) for any positive `int` buffer size; `frame_size_select` for EVERY `int` frame_size
+    (unconditional since fix 212cbc41); OPUS_GET_LOOKAHEAD and the demixing-matrix size. -/
+theorem int_ranges (s : DSt) (hfs : s.fs ∈ rates) (hch : s.channels = 1 ∨ s.channels = 2)
+    (hbr : s.userBitrate = -1000 ∨ s.userBitrate = -1 ∨ (500 ≤ s.userBitrate ∧ s.userBitrate ≤ 300000 * s.channels)) :
+    (I32 (300000 * s.channels) ∧ ∀ n : Int, 1 ≤ n ∧ n ≤ 255 → I32 (300000 * n) ∧ I32 (500 * n)) ∧
+    (∀ frameSize maxDataBytes : Int, frameSize = 0 ∨ frameSize ∈ apiSizes s.fs → 0 ≤ maxDataBytes ∧ maxDataBytes ≤ 1276 →
+        (∀ x ∈ bitrateIntermediates s frameSize maxDataBytes, I32 x) ∧
+        0 ≤ userBitrateToBitrate s frameSize maxDataBytes ∧ userBitrateToBitrate s frameSize maxDataBytes ≤ 4083200) ∧
+    (∀ f out : Int, f ∈ apiSizes s.fs → 0 < out ∧ out ≤ 2147483647 → ∀ x ∈ budgetIntermediates s f out, I32 x) ∧
+    (∀ frameSize vd : Int, 5000 ≤ vd ∧ vd ≤ 5009 → I32 frameSize →
+        let n := fssNew frameSize vd s.fs
+        I32 n ∧ I32 ((vd - 5001 - 2) * s.fs) ∧ I32 (6 * s.fs) ∧
+        (s.fs / 400 ≤ frameSize → n ≤ frameSize → n ≤ 6 * s.fs / 50 →
+          I32 (400 * n) ∧ I32 (200 * n) ∧ I32 (100 * n) ∧ I32 (50 * n) ∧ I32 (25 * n))) ∧
+    (∀ nc ns cp : Int, 1 ≤ nc ∧ nc ≤ 255 → 0 ≤ ns ∧ 0 ≤ cp ∧ ns + cp ≤ 255 →
+        I32 (s.fs / 400 + s.fs / 250) ∧ I32 (nc * (ns + cp)) ∧ I32 (nc * (ns + cp) * 2)) :=
+  ⟨⟨(bitrate_clamp_no_overflow s.channels 1 hch (by omega)).1,
+     fun n hn => ⟨(bitrate_clamp_no_overflow s.channels n hch hn).2.1, (bitrate_clamp_no_overflow s.channels n hch hn).2.2⟩⟩,
+   fun frameSize m hf hm => user_bitrate_no_overflow s hfs hch hbr frameSize m hf hm,
+   fun f out hf ho => budget_no_overflow s hfs hch hbr f out hf ho,
+   fun frameSize vd hvd hf => frame_size_select_no_overflow frameSize vd s.fs hfs hvd hf,
+   fun nc ns cp h1 h2 => getter_arith_no_overflow s.fs nc ns cp hfs h1 h2⟩
 
 /-- **honour_duration**.  Every packet an accepted `opus_encode` call produces — normal path or
     the tiny-budget "PLC frame" path — holds frames that add up to exactly the selected duration. -/
@@ -419,6 +448,9 @@ example : DInv exEnc.toDSt := (encInit_inv (by decide +kernel)).2
 example : (step exEnc.toDSt exOracle 960 1276).2 = { toc := 0xFC, frames := 1, lowBudget := false } := by decide +kernel
 /-- 2 bytes of budget: the low-budget path, still 20 ms. -/
 example : (step exEnc.toDSt exOracle 960 2).2.lowBudget = true ∧ frameSizeSelect 960 5000 48000 = 960 := by decide +kernel
+/-- the oversized frame sizes that used to overflow `400*new_size` are refused -/
+example : frameSizeSelect 5368710 5000 48000 = -1 ∧ frameSizeSelect 268435576 5000 48000 = -1 ∧
+    frameSizeSelect 2147483647 5000 48000 = -1 ∧ frameSizeSelect 5760 5000 48000 = 5760 := by decide +kernel
 /-- forced mono after a stereo frame: one delayed stereo packet, then mono. -/
 def exAfterStereo : DSt := { (step exEnc.toDSt { exOracle with autoMode := 1000 } 960 1276).1 with forceChannels := 1 }
 example : getNbChannels (stepNormal exAfterStereo { exOracle with autoMode := 1000 } 960 1276).2.toc = 2 ∧
